@@ -76,6 +76,25 @@ CHECKS["C17"] = {
     "technique": "symbolic path classification with z3 nlsat + QF_FP execution of the bin-search kernel",
 }
 
+CHECKS["C02"] = {
+    "category": "other",
+    "text": "bounded symbolic verification of both round trips and of the log-abs-det negation: every catalogued module and the spline functions (symbolic box / tail bound) are explored as composed runs inverse(forward(x)) / forward(inverse(y)) - every feasible pairing of forward and inverse paths is its own path - with identities normalised to polynomials (sqrt atoms reduced) and decided by z3; 'every number finite' = all side obligations of the stand-alone runs of both directions valid under the documented parameter ranges (lazy cuts for radical quotients). Spline inverse o forward is a corollary of forward o inverse + monotonicity (C09) + the proven inverse-range lemma. Cubic inverse and UMNN outside.",
+    "design_ref": "DESIGN.md section 6, C02",
+    "technique": "composed symbolic execution of the real forward/inverse + polynomial normalisation + z3 nlsat, lemma-based pruning",
+}
+CHECKS["C11"] = {
+    "category": "other",
+    "text": "accessor identities of LU / QR / SVD / naive / Householder parameterisations (forward == W x + b, W W^-1 == I, exp(logabsdet)^2 == det^2, combined accessors, inverse, Q^T Q == I) as polynomial identities over fully symbolic parameters decided by z3; every constructor-accepted size / initialisation mode evaluated concretely at its initial parameters (finite, invertible).",
+    "design_ref": "DESIGN.md section 6, C11",
+    "technique": "symbolic execution of the real accessors + z3 polynomial identities; concrete evaluation of initial states",
+}
+CHECKS["C14"] = {
+    "category": "model_checking",
+    "text": "inductive model checking of the ActNorm / BatchNorm life-cycle: every (training, initialised) abstract state x operation (train, eval, forward, inverse, save+load) x batch shape runs the real code on symbolic state and is compared with a reference transition function written from the docstrings (initialisation iff training and not initialised, zero mean / unit unbiased variance afterwards, momentum rule, running statistics only in training forwards, inverse refused in training); identities decided by z3; random concrete histories validated against the reference.",
+    "design_ref": "DESIGN.md section 6, C14",
+    "technique": "inductive-step symbolic model checking against a reference transition function, z3 polynomial identities with sqrt reduction",
+}
+
 NOT_APPLICABLE = {
     "C19": "float32-vs-float64 agreement needs QF_FP terms for chains of mul/div/sqrt/exp/log at two precisions; a 6-op representative was undecided in 60 s by z3 5.1, cvc5 1.0.3 and cvc5 1.4.0, and exp/log have no FP theory (DESIGN section 7)",
 }
